@@ -51,6 +51,7 @@ Proof.
     destruct (match_type g (last_str (split_on DOT name))) as [[ty id]|]; [|reflexivity].
     destruct (assoc_get ty (g_dict g)) as [[|r0 rs]|]; try reflexivity.
     destruct (select (r0 :: rs) fields r0 None) as [[r kw] leak].
+    destruct (is_nil kw && match r_pos r with Some p => p <? length fields | None => false end); [reflexivity|].
     destruct (if is_nil id && str_in ty anon_types || str_eqb id [QM] then make_anon st ty else (last_str (split_on DOT name), st)) as [relname' st'].
     cbn [app]. rewrite process_ns.
     destruct (process r fields _ [] relname') as [[n a]|e]; cbn [bind fst snd]; [|reflexivity].
